@@ -35,8 +35,10 @@ CHECKS["C01"] = {
     "rule": "Engine A: every event sequence (depth 4 quick / 5 thorough) over {Allocate c1 (IPv4 | IPv6), Allocate c2, Refresh0, CreatePermission [A],[B],[A,B],[V6], "
             "ChannelBind (n1,A),(n1,B),(n2,V6),(n2,A'), c2: CreatePermission [A], ChannelBind (n1,B), clock to next deadline -/+1ns, by 7s} x operator policies "
             "{allow, deny-IP(B), deny-all} x timeout configurations, on the real turn.Server in virtual time; " + SWEEP +
-            "C01 judges: datagrams arriving at peers that the model does not authorise (wrong source included) and permissions/bindings accepted against policy or address family.",
-    "parts": [A("vtx", "./checks/c01", "TestC01", budget={"quick": 90, "thorough": 1500})],
+            "C01 judges: datagrams arriving at peers that the model does not authorise (wrong source included) and permissions/bindings accepted against policy or address family. "
+            "Part connect: two TCP allocations on a stream listener x policies {deny-B, deny-all, allow}, depth 3/4 over Connect A/B, CreatePermission, inbound peer connections, ConnectionBind, Refresh0: a refused Connect target is answered with an error and never dialled.",
+    "parts": [A("vtx", "./checks/c01", "TestC01", budget={"quick": 90, "thorough": 1500}),
+              A("connect", "./checks/c01", "TestC01Connect", budget={"quick": 60, "thorough": 900})],
 }
 CHECKS["C02"] = {
     "level": "model_checking",
